@@ -1,41 +1,76 @@
 //! Model stand-in for `rustc-hash`, used ONLY inside the Kani harness workspaces
 //! (wired with [patch.crates-io]).  `FxHashMap<K, V>` is a finite map kept as an
-//! unordered `Vec<(K, V)>` with linear lookup: the same abstract behaviour as
-//! hashbrown (a partial function from keys to values), without hashing, SIMD
-//! group probing or `RandomState` thread-locals, none of which CBMC can decide
-//! in reasonable time.  Native replays run on the real crate.
+//! unordered array of (key, value) pairs with linear lookup: the same abstract
+//! behaviour as hashbrown (a partial function from keys to values), without
+//! hashing, SIMD group probing, heap growth or `RandomState` thread-locals, none
+//! of which CBMC can decide in reasonable time.  Capacity is `MAP_CAP` entries
+//! (default 8, build-time env `VERIF_MAP_CAP`); exceeding it prunes the path
+//! (`kani::assume`) and is a stated bound of the harnesses.  Native replays run
+//! on the real crate.
+use core::mem::MaybeUninit;
+
+const fn parse_cap(s: Option<&str>) -> usize {
+    match s {
+        None => 8,
+        Some(s) => {
+            let b = s.as_bytes();
+            let mut i = 0;
+            let mut v = 0usize;
+            while i < b.len() {
+                v = v * 10 + (b[i] - b'0') as usize;
+                i += 1;
+            }
+            v
+        }
+    }
+}
+pub const MAP_CAP: usize = parse_cap(option_env!("VERIF_MAP_CAP"));
+
+#[inline]
+fn model_bound(ok: bool) {
+    #[cfg(kani)]
+    kani::assume(ok);
+    #[cfg(not(kani))]
+    assert!(ok, "map model capacity exceeded");
+}
+
 #[derive(Default, Clone, Copy, Debug)]
 pub struct FxBuildHasher;
 
 #[derive(Clone, Debug)]
-pub struct FxHashMap<K, V> {
-    items: Vec<(K, V)>,
+pub struct FxHashMap<K: Copy, V: Copy> {
+    items: [MaybeUninit<(K, V)>; MAP_CAP],
+    len: usize,
 }
 
-impl<K, V> Default for FxHashMap<K, V> {
+impl<K: Copy, V: Copy> Default for FxHashMap<K, V> {
     fn default() -> Self {
-        Self { items: Vec::new() }
+        Self { items: [MaybeUninit::uninit(); MAP_CAP], len: 0 }
     }
 }
 
-impl<K: PartialEq + Copy, V> FxHashMap<K, V> {
+impl<K: PartialEq + Copy, V: Copy> FxHashMap<K, V> {
     pub fn with_capacity_and_hasher(_cap: usize, _h: FxBuildHasher) -> Self {
         // capacity is not observable through the map API
-        Self { items: Vec::with_capacity(8) }
+        Self::default()
+    }
+    #[inline]
+    fn at(&self, i: usize) -> (K, V) {
+        unsafe { self.items[i].assume_init() }
     }
     pub fn len(&self) -> usize {
-        self.items.len()
+        self.len
     }
     pub fn is_empty(&self) -> bool {
-        self.items.is_empty()
+        self.len == 0
     }
     pub fn clear(&mut self) {
-        self.items.clear();
+        self.len = 0;
     }
     fn pos(&self, k: &K) -> Option<usize> {
         let mut i = 0;
-        while i < self.items.len() {
-            if self.items[i].0 == *k {
+        while i < self.len {
+            if self.at(i).0 == *k {
                 return Some(i);
             }
             i += 1;
@@ -44,16 +79,22 @@ impl<K: PartialEq + Copy, V> FxHashMap<K, V> {
     }
     pub fn insert(&mut self, k: K, v: V) -> Option<V> {
         match self.pos(&k) {
-            Some(i) => Some(core::mem::replace(&mut self.items[i].1, v)),
+            Some(i) => {
+                let old = self.at(i).1;
+                self.items[i] = MaybeUninit::new((k, v));
+                Some(old)
+            }
             None => {
-                self.items.push((k, v));
+                model_bound(self.len < MAP_CAP);
+                self.items[self.len] = MaybeUninit::new((k, v));
+                self.len += 1;
                 None
             }
         }
     }
     pub fn get(&self, k: &K) -> Option<&V> {
         match self.pos(k) {
-            Some(i) => Some(&self.items[i].1),
+            Some(i) => Some(unsafe { &(*self.items[i].as_ptr()).1 }),
             None => None,
         }
     }
@@ -62,31 +103,34 @@ impl<K: PartialEq + Copy, V> FxHashMap<K, V> {
     }
     pub fn remove(&mut self, k: &K) -> Option<V> {
         match self.pos(k) {
-            Some(i) => Some(self.items.swap_remove(i).1),
+            Some(i) => {
+                let old = self.at(i).1;
+                self.len -= 1;
+                if i != self.len {
+                    self.items[i] = self.items[self.len];
+                }
+                Some(old)
+            }
             None => None,
         }
     }
     pub fn retain<F: FnMut(&K, &mut V) -> bool>(&mut self, mut f: F) {
         let mut i = 0;
-        while i < self.items.len() {
-            let keep = {
-                let e = &mut self.items[i];
-                f(&e.0, &mut e.1)
-            };
-            if keep {
+        while i < self.len {
+            let (k, mut v) = self.at(i);
+            if f(&k, &mut v) {
+                self.items[i] = MaybeUninit::new((k, v));
                 i += 1;
             } else {
-                self.items.swap_remove(i);
+                self.len -= 1;
+                if i != self.len {
+                    self.items[i] = self.items[self.len];
+                }
             }
         }
     }
-    pub fn keys(&self) -> impl Iterator<Item = &K> {
-        self.items.iter().map(|e| &e.0)
-    }
-    pub fn values(&self) -> impl Iterator<Item = &V> {
-        self.items.iter().map(|e| &e.1)
-    }
-    pub fn iter(&self) -> impl Iterator<Item = (&K, &V)> {
-        self.items.iter().map(|e| (&e.0, &e.1))
+    /// model-only observer used by harness oracles
+    pub fn model_entry(&self, i: usize) -> Option<(K, V)> {
+        if i < self.len { Some(self.at(i)) } else { None }
     }
 }
